@@ -209,10 +209,19 @@ func runC12(c *Ctx) {
 			p    P
 			what string
 		}{{Call("crypto/aes.NewCipher"), "NewCipher"}, {Call("crypto/cipher.NewGCM"), "NewGCM"}, {Invoke("crypto/cipher.AEAD.Open"), "Open"}} {
-			for _, cs := range c.Calls(f.SSA, pat.p) {
-				h := c.ErrPropagates(cs)
+			// the call may sit in a shared construction helper: then its error must be returned by the helper and
+			// the helper's error by the caller
+			for _, st := range c.CallsInl(f.SSA, pat.p, 2) {
+				h := c.ErrPropagates(st.CallSite)
 				ok := h.Kind == "returned-directly" || h.Kind == "checked-return"
-				c.Check(ok, "C12.D3-errors-returned", f.Name+" › "+pat.what, cs.In.Pos(), h.Why, "error of "+pat.what+" is "+h.Kind+": "+h.Why)
+				for _, via := range st.Via {
+					hv := c.ErrPropagates(CallSite{In: via, Fn: via.Parent(), X: c.CallX(via)})
+					if hv.Kind != "returned-directly" && hv.Kind != "checked-return" {
+						ok = false
+						h = hv
+					}
+				}
+				c.Check(ok, "C12.D3-errors-returned", f.Name+" › "+pat.what, st.In.Pos(), h.Why, "error of "+pat.what+" is "+h.Kind+": "+h.Why)
 			}
 		}
 	}
@@ -236,7 +245,7 @@ func runC12(c *Ctx) {
 		c.Unk("C12.D4-directions-agree", "dhash.deriveKey", token.NoPos, "not found")
 	} else {
 		for _, f := range []*Fn{enc, dec} {
-			nc := c.Calls(f.SSA, Call("crypto/aes.NewCipher"))
+			nc := c.CallsInl(f.SSA, Call("crypto/aes.NewCipher"), 2) // also through a shared cipher-construction helper
 			ok := len(nc) == 1
 			if ok {
 				pass := f.SSA.Params[len(f.SSA.Params)-1].Name()
